@@ -2,7 +2,7 @@
 //  bulk   : direct construction, process_data_bulk(Buffer)           (validates the lowering of the bulk path)
 //  stream : direct construction, process_data_stream_chunk per chunk (validates the lowering of the stream path + TextDecoder stub)
 //  api    : public async API over a stream.Readable emitting exactly those Buffers (used to replay counterexamples)
-const rbql_csv = require('/repo/rbql-js/rbql_csv.js');
+const rbql_csv = require((process.env.VF_REPO || '/repo') + '/rbql-js/rbql_csv.js');
 const { Readable } = require('stream');
 const chunks = [];
 process.stdin.on('data', c => chunks.push(c));
